@@ -781,7 +781,7 @@ impl Model {
     ) -> Result<(), String> {
         let what = format!("extract({kind:?}, checked={checked}, {by:?}, dest={dest:?})");
         let pre = match dest {
-            Dest::Absent | Dest::OtherFs => DestState::Absent,
+            Dest::Absent | Dest::OtherFs | Dest::LongName | Dest::WithSiblings => DestState::Absent,
             Dest::Existing => DestState::File(PREEXISTING.len() as u64, sha256_hex(PREEXISTING)),
         };
         let dest_untouched = |d: &DestState| *d == pre || *d == DestState::Absent;
